@@ -116,7 +116,7 @@ STRS = ['x', 'hello world', 'é', 'ß∂', 'a"b', "it's", ' lead', 'NULLISH', '0
 
 
 def gen_table(rng):
-    delim = rng.choice([',', ',', '|', '\t', ';'])
+    delim = rng.choice([',', ',', '|', '\t', ';', '\u00a7', '\u00a6'])   # incl. non-ASCII (section sign, broken bar)
     enc = rng.choice(['utf-8', 'utf-8', 'latin-1', 'utf-16', 'iso-8859-1', 'latin1', 'ISO-8859-1'])
     header = rng.random() < 0.7
     hdr_style = rng.choice(['header', 'headerRowCount'])
@@ -232,7 +232,10 @@ def load_table(tb, workdir):
         mdp = os.path.join(d, 't.csv-metadata.json')
         with open(mdp, 'w') as f:
             json.dump(md, f)
-        return csv2pandas(csvp, mdpath=mdp, verbosity=0)
+        import warnings
+        with warnings.catch_warnings():
+            warnings.simplefilter('ignore')      # pandas: fallback to the python engine for multi-byte separators
+            return csv2pandas(csvp, mdpath=mdp, verbosity=0)
     finally:
         shutil.rmtree(d, ignore_errors=True)
 
